@@ -259,12 +259,25 @@ def _spec_rows(ctx, cls_name):
         elif isinstance(st, ast.Assign) and any(ap(t) == "SPECS" for t in st.targets):
             node = st.value
     ctx.require(isinstance(node, ast.Dict), f"{cls_name}.SPECS is not a dict literal in the class body")
-    ev = ConstEval(repo, repo.module(PACK))
+    pmod = repo.module(PACK)
+    ev = ConstEval(repo, pmod)
     rows = {}
-    for k, v in zip(node.keys, node.values):
-        kv = ev.ev(k)
-        ctx.require(isinstance(kv, EnumVal) and kv.cls == "MsgType", f"{cls_name}.SPECS key {src(k)} is not a MsgType member")
-        rows[kv.name] = v
+
+    def add(d: ast.Dict, depth=0):
+        ctx.require(depth < 4, f"{cls_name}.SPECS: dict unpacking nested too deeply")
+        for k, v in zip(d.keys, d.values):
+            if k is None:
+                # `**NAME`: a module-level (or class-level) dict literal merged in; later rows win
+                sub = repo.module_assign(pmod, v.id) if isinstance(v, ast.Name) else None
+                if sub is None and isinstance(v, ast.Name):
+                    sub = repo.class_attr(ci, v.id)
+                ctx.require(isinstance(sub, ast.Dict), f"{cls_name}.SPECS merges {src(v)}, which is not a dict literal")
+                add(sub, depth + 1)
+                continue
+            kv = ev.ev(k)
+            ctx.require(isinstance(kv, EnumVal) and kv.cls == "MsgType", f"{cls_name}.SPECS key {src(k)} is not a MsgType member")
+            rows[kv.name] = v
+    add(node)
     return ci, node, rows
 
 
@@ -274,6 +287,42 @@ def _row_fmt(ev, v: ast.Call) -> Optional[str]:
         if isinstance(val, str):
             return val
     return None
+
+
+def _resolve_callable(repo, f: FuncInfo, e, depth=0):
+    """Function-like things an expression inside factory f may denote:
+    [(params: list of names, body_returns: list of exprs, def_node, bound: {param: arg expr}, site)]"""
+    out = []
+    if depth > 4 or e is None:
+        return out
+    if isinstance(e, ast.Lambda):
+        out.append(([a.arg for a in e.args.args], [e.body], e, {}, e))
+    elif isinstance(e, ast.Name):
+        nested = [d for d in walk(f.node) if isinstance(d, ast.FunctionDef) and d is not f.node and d.name == e.id]
+        for d in nested:
+            out.append(([a.arg for a in d.args.args], [n.value for n in walk(d) if isinstance(n, ast.Return) and n.value is not None],
+                        d, {}, d))
+        if not nested:
+            vals = [st.value for st in stores(f.node, into_defs=False) if st.path == e.id and st.kind == "assign" and st.value is not None]
+            for v in vals:
+                out.extend(_resolve_callable(repo, f, v, depth + 1))
+            if not vals:
+                for g in repo.funcs.get(e.id, []):
+                    if g.module is f.module and g.cls is None and g.parent_fn is None:
+                        out.append(([a.arg for a in g.node.args.args],
+                                    [n.value for n in walk(g.node) if isinstance(n, ast.Return) and n.value is not None],
+                                    g.node, {}, e))
+    elif isinstance(e, ast.Call) and (ap(e.func) or "").split(".")[-1] == "partial" and e.args:
+        for params, rets, d, bound, _ in _resolve_callable(repo, f, e.args[0], depth + 1):
+            b = dict(bound)
+            free = [p for p in params if p not in b]
+            for p_, a in zip(free, e.args[1:]):
+                b[p_] = a
+            for k_ in e.keywords:
+                if k_.arg:
+                    b[k_.arg] = k_.value
+            out.append((params, rets, d, b, e))
+    return out
 
 
 def r1(ctx):
@@ -344,13 +393,20 @@ def r1(ctx):
                 "_make_llsd_tuplecoord_spec no longer returns one (unpacker, packer) tuple")
     up, pk = rets[0].value.elts
     typ_param = fac.node.args.args[0].arg
-    ok_up = isinstance(up, ast.Lambda) and isinstance(up.body, ast.Call) and ap(up.body.func) == typ_param and \
-        len(up.body.args) == 1 and isinstance(up.body.args[0], ast.Starred) and \
-        ap(up.body.args[0].value) == up.args.args[0].arg
+    ups = _resolve_callable(repo, fac, up)
+    ok_up = bool(ups)
+    for params, urets, d, bound, _ in ups:
+        free = [p_ for p_ in params if p_ not in bound]
+        for r_ in urets:
+            callee = ap(r_.func) if isinstance(r_, ast.Call) else None
+            callee_is_typ = callee == typ_param or (callee in bound and ap(bound[callee]) == typ_param)
+            ok_up = ok_up and len(free) == 1 and bool(urets) and callee_is_typ and len(r_.args) == 1 and \
+                isinstance(r_.args[0], ast.Starred) and ap(r_.args[0].value) == free[0] and not r_.keywords
+        ok_up = ok_up and bool(urets)
     ctx.ob("C12.R1", "_make_llsd_tuplecoord_spec unpacker is typ(*array)", ok_up, ctx.w(fac, up),
            "the LLSD array must be splatted into the coordinate class the row names")
-    packers = [d for d in walk(fac.node) if isinstance(d, ast.FunctionDef) and d is not fac.node and d.name == ap(pk)]
-    ctx.floor("C12.R1", "packer closures in _make_llsd_tuplecoord_spec", len(packers), 1)
+    packers = _resolve_callable(repo, fac, pk)
+    ctx.floor("C12.R1", "packer functions of _make_llsd_tuplecoord_spec", len(packers), 1)
     # TupleCoord-only attribute names (defined in the TupleCoord hierarchy, not on tuple)
     tc = repo.cls("TupleCoord", "hippolyzer/lib/base/datatypes.py")
     tc_attrs: Set[str] = set()
@@ -364,7 +420,15 @@ def r1(ctx):
     ctx.require(data_fn is not None and ap(data_fn.node.returns) == "tuple",
                 "TupleCoord.data is no longer annotated `-> tuple`: re-read the type-flow premise of C12.R1")
     for side, f in (("llsd", fac), ("binary", sib)):
-        for d in [x for x in walk(f.node) if isinstance(x, ast.FunctionDef) and x is not f.node]:
+        # closures of the factory plus the same-module functions it hands out (directly or through functools.partial)
+        cands = [(x, x) for x in walk(f.node) if isinstance(x, ast.FunctionDef) and x is not f.node]
+        for n_ in walk(f.node):
+            if isinstance(n_, ast.Name) and isinstance(n_.ctx, ast.Load):
+                for g_ in repo.funcs.get(n_.id, []):
+                    if g_.module is f.module and g_.cls is None and g_.parent_fn is None and g_ is not f and \
+                            not any(c_[0] is g_.node for c_ in cands):
+                        cands.append((g_.node, n_))
+        for d, site in cands:
             cfg = CFG(d)
             rebinds = [s for s in stores(d, into_defs=False) if s.kind == "assign" and isinstance(s.target, ast.Name)
                        and isinstance(s.value, ast.Call) and call_attr(s.value) == "data"
@@ -372,7 +436,7 @@ def r1(ctx):
             branch = "needed_elems given" if any(
                 isinstance(e, ast.Compare) and ap(e.left) == "needed_elems" and pol is False or
                 isinstance(e, ast.Compare) and ap(e.left) == "needed_elems" and isinstance(e.ops[0], ast.IsNot) and pol
-                for e, pol in facts(d, f.node)) else "all components"
+                for e, pol in facts(site, f.node)) else "all components"
             bad = []
             for s in rebinds:
                 nm = s.target.id
@@ -720,16 +784,19 @@ class ParserModel:
         if hinit is not None:
             for st in stores(hinit.node, into_defs=False):
                 if st.kind == "setitem" and st.path == "self._dispatch" and isinstance(st.target, ast.Subscript):
-                    sl = st.target.slice
-                    key = None
-                    if isinstance(sl, ast.Call) and ap(sl.func) == "ord" and sl.args and isinstance(sl.args[0], ast.Constant):
-                        v = sl.args[0].value
-                        key = v.encode("latin-1") if isinstance(v, str) else v
-                    elif isinstance(sl, ast.Constant) and isinstance(sl.value, int):
-                        key = bytes([sl.value])
-                    ctx.require(key is not None, f"unsupported dispatch override key {norm(sl)}")
-                    self.dispatch[key] = ("hippo", st.value)
-                    self.overrides.add(key)
+                    for env in self._loop_rows(st.node, hinit.node):
+                        sl = self._subst(st.target.slice, env)
+                        val = self._subst(st.value, env)
+                        key = None
+                        arg = self._subst(sl.args[0], env) if isinstance(sl, ast.Call) and ap(sl.func) == "ord" and sl.args else None
+                        if isinstance(arg, ast.Constant) and isinstance(arg.value, (str, bytes)) and len(arg.value) == 1:
+                            v = arg.value
+                            key = v.encode("latin-1") if isinstance(v, str) else v
+                        elif isinstance(sl, ast.Constant) and isinstance(sl.value, int):
+                            key = bytes([sl.value])
+                        ctx.require(key is not None, f"unsupported dispatch override key {norm(st.target.slice)}")
+                        self.dispatch[key] = ("hippo", val)
+                        self.overrides.add(key)
         # structural tokens compared by the container parsers
         self.structural: Set[bytes] = set()
         for nm in ("_parse_map", "_parse_array"):
@@ -740,6 +807,46 @@ class ParserModel:
                     for x in ast.walk(n):
                         if isinstance(x, ast.Constant) and isinstance(x.value, bytes) and len(x.value) == 1:
                             self.structural.add(x.value)
+
+    @staticmethod
+    def _subst(e, env):
+        return env.get(e.id, e) if isinstance(e, ast.Name) else e
+
+    @staticmethod
+    def _loop_rows(stmt, fn_node) -> List[Dict[str, ast.AST]]:
+        """Bindings of the loop variables for a statement inside `for a, b in (<literal rows>)`; [{}] outside loops."""
+        from ..core import ancestors
+        rows: List[Dict[str, ast.AST]] = [{}]
+        for loop in [a for a in ancestors(stmt) if isinstance(a, ast.For)]:
+            if not isinstance(loop.iter, (ast.Tuple, ast.List)):
+                raise AnalysisError(f"dispatch override inside a loop over a non-literal sequence: {norm(loop.iter)}")
+            new_rows = []
+            for row in loop.iter.elts:
+                env: Dict[str, ast.AST] = {}
+                if isinstance(loop.target, ast.Name):
+                    env[loop.target.id] = row
+                elif isinstance(loop.target, ast.Tuple) and isinstance(row, (ast.Tuple, ast.List)) \
+                        and len(row.elts) == len(loop.target.elts) and all(isinstance(t, ast.Name) for t in loop.target.elts):
+                    env = {t.id: v for t, v in zip(loop.target.elts, row.elts)}
+                else:
+                    raise AnalysisError(f"unsupported loop target over dispatch rows: {norm(loop.target)}")
+                new_rows.extend({**r, **env} for r in rows)
+            rows = new_rows
+        return rows
+
+    def handler_ctor(self, tag) -> Tuple[str, List[ast.AST]]:
+        """(origin, callee names of the constructor calls the handler returns) for lambda / method handlers."""
+        origin, h = self.dispatch[tag]
+        vals = []
+        if isinstance(h, ast.Lambda):
+            vals = [h.body]
+        elif isinstance(h, ast.Attribute) and ap(h.value) == "self":
+            m = self.method(h.attr)
+            if m is not None:
+                origin = "hippo" if m[0] == "hippo" else "third-party"
+                vals = [n.value for n in ast.walk(m[1]) if isinstance(n, ast.Return) and n.value is not None]
+        ctors = [v.func for v in vals if isinstance(v, ast.Call) and isinstance(v.func, ast.Name)]
+        return origin, (ctors if vals and len(ctors) == len(vals) else [])
 
     def _tp_method(self, name):
         for modname, c in self.tp_classes:
@@ -937,13 +1044,11 @@ def r2(ctx):
                 ctx.ob("C12.R2", f"tag {tag!r} (branch `{label}`): 16 raw UUID bytes are what the parser consumes", getcs == {16}, where,
                        f"parser handler consumes {sorted(getcs)} bytes")
             # 'same LLSD type': a wrapper class written under its own tag is rebuilt as that class
-            origin_h = pm.dispatch[tag][1]
-            if isinstance(origin_h, ast.Lambda) and isinstance(origin_h.body, ast.Call) and isinstance(origin_h.body.func, ast.Name) \
-                    and types and not any(t.startswith("builtins.") for t in types):
-                if pm.dispatch[tag][0] == "hippo":
-                    built = tw.repo_types(mod, origin_h.body.func)
-                else:
-                    built = tw.tp_types("llsd.serde_binary", origin_h.body.func)
+            h_origin, ctors = pm.handler_ctor(tag)
+            if ctors and types and not any(t.startswith("builtins.") for t in types):
+                built: Set[str] = set()
+                for fn_name in ctors:
+                    built |= tw.repo_types(mod, fn_name) if h_origin == "hippo" else tw.tp_types("llsd.serde_binary", fn_name)
                 okb = bool(built) and all(any(tw.is_subtype(b, t) for t in types) for b in built)
                 ctx.ob("C12.R2", f"tag {tag!r} (branch `{label}`): parser rebuilds the class the branch accepts", okb, where,
                        f"branch accepts {sorted(types)}, handler builds {sorted(built)}")
@@ -1110,11 +1215,75 @@ def r4(ctx):
              "escaping; the property text speaks of string values only, so this is not armed")
 
 
+def r5(ctx):
+    """parse_binary may drop an optional header only from the *start* of the document: every rebinding of the payload
+    to a part of itself is dominated by a startswith() test of the payload (headerless documents may contain the
+    header bytes inside a binary/string value)."""
+    repo = ctx.repo
+    ctx.rule("C12.R5", "parse_binary strips the optional header only when the document starts with it (prefix removal "
+                       "dominated by a startswith test, directly or through a same-module predicate)")
+    f = repo.fn("parse_binary", LLSD)
+    params = [a.arg for a in f.node.args.args]
+    ctx.require(bool(params), "parse_binary lost its parameter")
+    P = params[0]
+
+    def anchor_test(e, subject: str, mod, depth=0) -> bool:
+        if depth > 3 or not isinstance(e, ast.Call):
+            return False
+        if isinstance(e.func, ast.Attribute) and e.func.attr == "startswith" and ap(e.func.value) == subject:
+            return True
+        if ap(e.func) in ("any", "all") and len(e.args) == 1 and isinstance(e.args[0], (ast.GeneratorExp, ast.ListComp)):
+            return ap(e.func) == "any" and anchor_test(e.args[0].elt, subject, mod, depth + 1)
+        if isinstance(e.func, ast.Name) and len(e.args) == 1 and ap(e.args[0]) == subject:
+            for g in repo.funcs.get(e.func.id, []):
+                if g.module is mod and g.cls is None and g.parent_fn is None and g.node.args.args:
+                    gp = g.node.args.args[0].arg
+                    rets = [n.value for n in walk(g.node) if isinstance(n, ast.Return) and n.value is not None]
+                    if rets and all(anchor_test(r, gp, mod, depth + 1) for r in rets) and \
+                            not any(st.path == gp for st in stores(g.node)):
+                        return True
+        return False
+
+    # names holding parts of the payload
+    derived: Set[str] = set()
+    changed = True
+    while changed:
+        changed = False
+        for n in walk(f.node):
+            if isinstance(n, ast.Assign):
+                srcn = {x.id for x in ast.walk(n.value) if isinstance(x, ast.Name)}
+                if srcn & ({P} | derived):
+                    for t in n.targets:
+                        for x in ast.walk(t):
+                            if isinstance(x, ast.Name) and x.id != P and x.id not in derived:
+                                derived.add(x.id)
+                                changed = True
+    n_sites = 0
+    for st in stores(f.node, into_defs=False):
+        if st.path != P or st.kind != "assign" or st.value is None:
+            continue
+        srcn = {x.id for x in ast.walk(st.value) if isinstance(x, ast.Name)}
+        if not (srcn & ({P} | derived)):
+            continue
+        n_sites += 1
+        ok = any(pol and anchor_test(e, P, f.module) for e, pol in facts(st.node, f.node))
+        ctx.ob("C12.R5", f"parse_binary: `{norm(st.node)}` keeps a part of the document only after a startswith() test", ok,
+               ctx.w(f, st.node), "the header bytes are searched anywhere in the document: a headerless document whose "
+               "binary/string value embeds a headered LLSD document is cut at the embedded header")
+    # the parser is handed the (possibly stripped) parameter
+    pcs = [c for c in calls(f.node) if call_attr(c) == "parse" and c.args]
+    ctx.ob("C12.R5", "parse_binary hands the document to HippoLLSDBinaryParser().parse", len(pcs) == 1 and
+           ({x.id for x in ast.walk(pcs[0].args[0]) if isinstance(x, ast.Name)} <= {P} | derived), f.where)
+    ctx.stats["C12.R5.header removal sites"] = n_sites
+
+
 def run(ctx):
-    r1(ctx)
-    r2(ctx)
-    r3(ctx)
-    r4(ctx)
+    # when re-run as a dependency clause of another property only the requested rules are evaluated (an analysis
+    # error of a rule the dependent property does not need must not become its analysis error)
+    wanted = getattr(ctx, "_rules", None) if getattr(ctx, "_dep", None) == "C12" else None
+    for name, fn in (("R1", r1), ("R2", r2), ("R3", r3), ("R4", r4), ("R5", r5)):
+        if wanted is None or name in wanted:
+            fn(ctx)
     ctx.assume("third-party llsd package sources under /venv/lib/python3.12/site-packages/llsd are parsed, never imported; "
                "`if PY2:` is resolved to the Python 3 side")
     ctx.assume("value/type preservation of generated LLSD trees is not decided statically")
